@@ -22,7 +22,7 @@ def corpus_cases():
 
 
 def effective_secondary(case):
-    if case["fn"] == 0:
+    if case["fn"] in (0, 6):
         return case["sec"]
     if case["fn"] in (1, 4):
         return bool(set(case["r"]) & set(case["proA"] + case["proB"]))
